@@ -67,4 +67,140 @@ theorem stepBody_prefix (line : List String) : PrefixInv (fun s => stepBody s li
     · cases s with | mk mode comments done cur err => cases cur <;> simp [PSt.setC]
     · rfl
 
+theorem stepInfo_prefix (line : List String) : PrefixInv (fun s => stepInfo s line) := by
+  intro s p
+  cases line with
+  | nil => rfl
+  | cons kw args =>
+    simp only [stepInfo]
+    split
+    · simp [PSt.setC]
+    split
+    · cases args with
+      | nil => simp [fail_setC]
+      | cons n r => simp [modLast_setC]
+    split
+    · cases args with
+      | nil => simp [fail_setC]
+      | cons a r =>
+        cases r with
+        | nil => simp [fail_setC]
+        | cons b r => simp [modLast_setC]
+    split
+    · cases args with
+      | nil => simp [fail_setC]
+      | cons a r =>
+        cases r with
+        | nil => simp [fail_setC]
+        | cons b r => simp [modLast_setC]
+    · exact stepBody_prefix (kw :: args) s p
+
+theorem stepCovers_prefix (line : List String) : PrefixInv (fun s => stepCovers s line) := by
+  intro s p
+  cases line with
+  | nil => rfl
+  | cons kw args =>
+    simp only [stepCovers]
+    split
+    · simp [modLast_setC]
+    · exact stepInfo_prefix (kw :: args) { s with mode := Mode.info } p
+
+theorem stepHeader_prefix (line : List String) : PrefixInv (fun s => stepHeader s line) := by
+  intro s p
+  cases line with
+  | nil => rfl
+  | cons kw args =>
+    simp only [stepHeader]
+    split
+    · simp [PSt.setC]
+    split
+    · simp [pushHdr_setC]
+    split
+    · simp [pushHdr_setC]
+    split
+    · simp [pushHdr_setC]
+    · exact stepBody_prefix (kw :: args) { s with mode := Mode.body } p
+
+theorem stepOutside_prefix (line : List String) : PrefixInv (fun s => stepOutside s line) := by
+  intro s p
+  cases line with
+  | nil => rfl
+  | cons kw args =>
+    simp only [stepOutside]
+    split
+    · simp [PSt.setC]
+    split
+    · cases args with
+      | nil => simp [fail_setC]
+      | cons n r => rfl
+    · rfl
+
+theorem pstep_prefix (line : List String) : PrefixInv (fun s => pstep s line) := by
+  intro s p
+  cases s with
+  | mk mode comments done cur err =>
+    cases mode
+    · exact stepOutside_prefix line _ p
+    · exact stepHeader_prefix line _ p
+    · exact stepBody_prefix line _ p
+    · exact stepCovers_prefix line _ p
+    · exact stepInfo_prefix line _ p
+
+theorem foldl_prefix (ls : List (List String)) :
+    ∀ (s : PSt) (p : List String),
+      ls.foldl pstep (s.setC (p ++ s.comments)) =
+        (ls.foldl pstep s).setC (p ++ (ls.foldl pstep s).comments) := by
+  induction ls with
+  | nil => intro s p; rfl
+  | cons l r ih =>
+    intro s p
+    simp only [List.foldl_cons]
+    have e : pstep (s.setC (p ++ s.comments)) l = (pstep s l).setC (p ++ (pstep s l).comments) :=
+      pstep_prefix l s p
+    rw [e]
+    exact ih (pstep s l) p
+
+/-- a `#` line met in any mode but `covers` (i.e. not between the rows of a truth table)
+    changes nothing but the comment list -/
+theorem pstep_comment (s : PSt) (ws : List String) (h : s.mode ≠ Mode.covers) :
+    pstep s ("#" :: ws) = s.setC (s.comments ++ [commentText ws]) := by
+  cases s with
+  | mk mode comments done cur err =>
+    cases mode
+    · simp [pstep, stepOutside, PSt.setC]
+    · simp [pstep, stepHeader, PSt.setC]
+    · simp [pstep, stepBody, PSt.setC]
+    · exact absurd rfl h
+    · simp [pstep, stepInfo, PSt.setC]
+
+theorem finish_setC (s : PSt) (c : List String) :
+    (s.setC c).finish = (s.finish).map (fun a => { a with comments := c }) := by
+  cases s with
+  | mk mode comments done cur err => cases err <;> rfl
+
+theorem parseLines_comment (l1 l2 : List (List String)) (ws : List String)
+    (h : (l1.foldl pstep {}).mode ≠ Mode.covers) :
+    parseLines (l1 ++ ("#" :: ws) :: l2) =
+      (parseLines (l1 ++ l2)).map (fun a =>
+        { a with comments := a.comments.take (l1.foldl pstep {}).comments.length
+                              ++ commentText ws :: a.comments.drop (l1.foldl pstep {}).comments.length }) := by
+  unfold parseLines
+  simp only [List.foldl_append, List.foldl_cons]
+  generalize hs1 : l1.foldl pstep {} = s1 at h ⊢
+  rw [pstep_comment s1 ws h]
+  have e1 := foldl_prefix l2 (s1.setC []) (s1.comments ++ [commentText ws])
+  have e2 := foldl_prefix l2 (s1.setC []) s1.comments
+  simp only [PSt.setC, List.append_nil] at e1 e2
+  have hs : ({ s1 with comments := s1.comments } : PSt) = s1 := rfl
+  rw [hs] at e2
+  simp only [PSt.setC] at *
+  rw [e1, e2]
+  generalize (List.foldl pstep { s1 with comments := [] } l2) = F
+  cases F with
+  | mk mode comments done cur err =>
+    cases err with
+    | some e => rfl
+    | none =>
+      simp [PSt.finish, Except.map, List.take_left', List.drop_left']
+
 end Spydr.Eblif
